@@ -380,6 +380,34 @@ pub fn emit_proof(
     ctx.count(&format!("args:trash={}", cs.trashcans().len()));
     let fail_key = |what: &str| format!("honest-vectors-violate:{what}");
 
+    // ---- custom gates on EVERY row of the real table, the blinding rows (random advice) included
+    // (hypotheses and conclusion of `selector_gate_blinding_rows` on the real data)
+    {
+        let fixed_zero_on_unusable = fixed.iter().all(|c| c[u..].iter().all(|v| bool::from(v.is_zero())));
+        ctx.count(if fixed_zero_on_unusable { "args:fixed-columns-zero-on-unusable-rows" } else { "args:fixed-column-NONZERO-on-unusable-row" });
+        let blinded_nonzero = advice.iter().any(|c| c[u + 1..].iter().any(|v| !bool::from(v.is_zero())));
+        if blinded_nonzero {
+            ctx.count("args:advice-blinding-rows-random");
+        }
+        let mut bad = vec![];
+        let mut n_polys = 0;
+        for (gi, g) in cs.gates().iter().enumerate() {
+            for (pi, poly) in g.polynomials().iter().enumerate() {
+                n_polys += 1;
+                for i in 0..n {
+                    if !bool::from(t.eval(poly, i).is_zero()) {
+                        bad.push(format!("{gi}.{pi}@{i}"));
+                    }
+                }
+            }
+        }
+        ctx.count_n("args:gate-polys-checked-on-all-rows", n_polys);
+        if !bad.is_empty() {
+            ctx.oracle_fail(&fail_key("gate"), "a custom-gate polynomial is non-zero on a row of the honest table (blinding rows included)",
+                json!({"case": desc, "proof": proof_idx, "u": u, "violations(gate.poly@row)": bad.iter().take(20).collect::<Vec<_>>()}));
+        }
+    }
+
     // ---- permutation argument
     let zs = &log.perm_z[proof_idx];
     if !zs.is_empty() {
